@@ -484,3 +484,65 @@ func SchedRecv[T any](x T) T {
 	SchedPoint()
 	return x
 }
+
+// ---- sync.Cond and sync.Locker under the cooperative scheduler
+
+type tryLocker interface {
+	TryLock() bool
+	Unlock()
+}
+
+// SchedLockL / SchedUnlockL replace X.Lock() / X.Unlock() on a sync.Locker (a Cond's L).
+func SchedLockL(l sync.Locker) {
+	if t, ok := l.(tryLocker); ok {
+		SchedLock(t.TryLock, t.Unlock)
+		return
+	}
+	l.Lock()
+}
+
+func SchedUnlockL(l sync.Locker) { SchedUnlock(l.Unlock) }
+
+var condGen = map[*sync.Cond]uint64{}
+
+func condGeneration(c *sync.Cond) uint64 {
+	nsMu.Lock()
+	defer nsMu.Unlock()
+	return condGen[c]
+}
+
+// SchedCondWait replaces c.Wait(): release L, park until a Broadcast/Signal came, take L again.
+func SchedCondWait(c *sync.Cond) {
+	if !scheduled() {
+		c.Wait()
+		return
+	}
+	SchedPoint()
+	g := condGeneration(c)
+	c.L.Unlock()
+	nsBlock(func() bool { return condGeneration(c) != g })
+	t, ok := c.L.(tryLocker)
+	if !ok {
+		c.L.Lock()
+		return
+	}
+	nsBlock(func() bool {
+		if t.TryLock() {
+			t.Unlock()
+			return true
+		}
+		return false
+	})
+	if !t.TryLock() {
+		panic(Stop{"schedule-mismatch", "cond lock not free after wake-up"})
+	}
+}
+
+// SchedCondBroadcast replaces c.Broadcast() and c.Signal().
+func SchedCondBroadcast(c *sync.Cond) {
+	nsMu.Lock()
+	condGen[c]++
+	nsMu.Unlock()
+	c.Broadcast()
+	SchedPoint()
+}
